@@ -407,7 +407,7 @@ def _srun_step(c):
                  z3.IntVal(STRINGS.intern('queue')))
     return [('C04-handed-over-observation-was-not-queued-and-is-queued-once', z3.And(
         q0.count(ob) == 0, q1.cnt == z3.Store(q0.cnt, ob.t, z3.IntVal(1)), q1.n == q0.n + 1)),
-            ('C13-queue-added-event-in-the-same-step', z3.Select(n.self.events.cnt, code) == 1)]
+            ('C13-queue-added-event-in-the-same-step', z3.Select(n.self.events.cnt, code) == z3.Select(o.self.events.cnt, code) + 1)]
 
 
 REG.contract('Scheduler.run', world=SW, locals_types={'obs': 'any', 'ret': 'proc'},
